@@ -26,7 +26,7 @@ def execute(job):
 
 
 def nontrivial(job, trace):
-    return True
+    return bool(trace["ev"])
 
 
 def vclass(job, trace, at):
